@@ -72,7 +72,12 @@ func (s *Stream) Draw(n int, label string) int {
 // with 0 = false, so that shrinking toward zero removes faults.
 func (s *Stream) Chance(num, den int, label string) bool {
 	if s.isRep {
-		return s.Draw(2, label) == 1
+		v := s.Draw(2, label)
+		if num <= 0 && v != 0 {
+			s.rec[len(s.rec)-1] = 0
+			return false
+		}
+		return v == 1
 	}
 	hit := num > 0 && (s.Limit == 0 || s.pos < s.Limit) && s.rng.IntN(den) < num
 	v := uint32(0)
@@ -86,7 +91,14 @@ func (s *Stream) Chance(num, den int, label string) bool {
 // Weighted draws an index with the given weights; recorded as the index.
 func (s *Stream) Weighted(w []int, label string) int {
 	if s.isRep {
-		return s.Draw(len(w), label)
+		v := s.Draw(len(w), label)
+		if v < len(w) && w[v] <= 0 {
+			// a choice the plan does not enable (can appear when a shrinker
+			// lowers a recorded value): fall back to the benign choice
+			s.rec[len(s.rec)-1] = 0
+			return 0
+		}
+		return v
 	}
 	tot := 0
 	for _, x := range w {
